@@ -507,4 +507,4 @@ class Facts:
         nb = len(self.bodies)
         nblocks = sum(b.n for b in self.bodies)
         ncalls = sum(1 for b in self.bodies for blk in b.blocks if blk["term"]["k"] == "call")
-        return {"bodies": nb, "blocks": nblocks, "call_sites": ncalls}
+        return {"bodies": nb, "blocks": nblocks, "call_sites": ncalls, "unsafe_blocks": len(self.j.get("unsafe_blocks", []))}
